@@ -83,7 +83,8 @@ def step (st : St) (line : String) : St × String :=
     match k.toNat?, parse rest with
     | some kk, some [sx] =>
       match decTree sx with
-      | some t => ({ trees := (kk, t) :: st.trees, next := max st.next (maxId t + 1) }, "ok")
+      | some t => ({ trees := (kk, t) :: st.trees, next := max st.next (maxId t + 1) },
+                   s!"ok parseBuilt={parseBuilt t} noNaN={noNaN t}")
       | none => (st, "bad-tree")
     | _, _ => (st, "bad-sexp")
   | "RESET" :: _ => ({}, "ok")
